@@ -283,8 +283,8 @@ func judge(fatalf func(string, ...any), s respSpec, r reqSpec, w wire, plain wir
 				}
 				continue
 			}
-			if h == "Content-Type" && b == "" && s.contentType == "" {
-				continue // the upstream sent no type at all (it flushed first): the last hop's server may sniff one
+			if h == "Content-Type" && s.contentType == "" && (b == "" || a == "" || s.typeUnknown) {
+				continue // the upstream sent no type at all (it flushed first): whether the last hop's server sniffs one depends on when the first bytes arrive
 			}
 			if a != b {
 				fatalf("header %s = %q, without the gzip handler %q\n%s", h, a, b, ctx)
@@ -497,7 +497,15 @@ func TestC17ThroughProxy(t *testing.T) {
 		s2 := s
 		if s2.contentType == "" && len(s.body()) > 0 {
 			s2.contentType = plain.header.Get("Content-Type")
-			if s.flushFirst && s.status == 200 && !s.explicit || s.flushAt == 0 && s.explicit {
+			firstData := len(s.chunks)
+			for i, c := range s.chunks {
+				if len(c) > 0 {
+					firstData = i
+					break
+				}
+			}
+			// a flush before the first byte of data commits the upstream's headers without a type
+			if s.flushFirst && s.status == 200 && !s.explicit || s.flushAt >= 0 && s.flushAt <= firstData {
 				s2.typeUnknown = true
 			}
 		}
